@@ -32,7 +32,53 @@ func (r *rwRT) ruleFilePasses() {
 		// helpers that rewriteFile is split into are followed; the passes themselves, and anything that performs the generator pass, are steps
 		return inRw(f) && !passNames[f.Name()] && f.Name() != "rewriteYieldFunc" && !reachesFn(f, "rewriteYieldFunc", 4)
 	}
-	outs := in.Run(nil, fn, []AV{Sym{Name: "r", NN: true}, Sym{Name: "f", NN: true}, Sym{Name: "printer", NN: true}}, nil)
+	// the file is printed by rewriteFile itself (it is handed the printer) — or, when it is not, by its caller right
+	// after it: then every call of rewriteFile must be followed, in the same basic block, by a call of a printer
+	// (a function value taking the file name and the file, or a method of such a function type)
+	printsItself := fn.Signature.Params().Len() >= 2
+	runArgs := []AV{Sym{Name: "r", NN: true}, Sym{Name: "f", NN: true}, Sym{Name: "printer", NN: true}}
+	if !printsItself {
+		runArgs = runArgs[:2]
+		isPrinterSig := func(t types.Type) bool {
+			sig, ok := t.Underlying().(*types.Signature)
+			if !ok || sig.Params().Len() != 2 || sig.Results().Len() != 0 {
+				return false
+			}
+			bt, isB := sig.Params().At(0).Type().Underlying().(*types.Basic)
+			_, isP := sig.Params().At(1).Type().Underlying().(*types.Pointer)
+			return isB && bt.Info()&types.IsString != 0 && isP
+		}
+		sites, printed := 0, 0
+		for _, f := range r.w.FuncsOf(pathRw) {
+			for _, b := range f.Blocks {
+				for i, ins := range b.Instrs {
+					call, ok := ins.(ssa.CallInstruction)
+					if !ok || call.Common().StaticCallee() != fn {
+						continue
+					}
+					sites++
+					for _, later := range b.Instrs[i+1:] {
+						lc, ok := later.(ssa.CallInstruction)
+						if !ok {
+							continue
+						}
+						if cal := lc.Common().StaticCallee(); cal != nil && cal.Signature.Recv() != nil && isPrinterSig(cal.Signature.Recv().Type()) {
+							printed++
+							break
+						}
+						if lc.Common().StaticCallee() == nil && !lc.Common().IsInvoke() && isPrinterSig(lc.Common().Value.Type()) {
+							printed++
+							break
+						}
+					}
+				}
+			}
+		}
+		c.check(sites > 0 && printed == sites, "RW.FILEPASSES", "order of passes: the rewritten file is printed by the caller of rewriteFile", pos,
+			fmt.Sprintf("%d call site(s) of rewriteFile, each followed in its basic block by a call of the file printer", sites),
+			fmt.Sprintf("rewriteFile is not handed a printer and %d of its %d call site(s) are not followed by a call of a file printer: the rewritten file is never written", sites-printed, sites))
+	}
+	outs := in.Run(nil, fn, runArgs, nil)
 	r.account(in)
 	// every path: sequence of astutil.Apply calls identified by the callback wrapped
 	checked := 0
@@ -132,6 +178,9 @@ func (r *rwRT) ruleFilePasses() {
 			return -1
 		}
 		order := []string{"collect", "pass:yieldFrom", "pass:consumerRanges", "pass:yield", "pass:iterType", "print"}
+		if !printsItself {
+			order = order[:len(order)-1]
+		}
 		var err error
 		last := -1
 		for _, s := range order {
